@@ -122,7 +122,7 @@ include hS hT in
 theorem cert_fill3 :
     (∀ path vid pre node st acc st', fillNode S path vid pre node st = .ok (acc, st') →
       ∀ (W : World) (miss : Bool) (L Rest AE : List Ev), EnvOK H W → TablesOK W tbl ftbl →
-        CompOK W AE → hyps3Node H miss pre node = true → (treeOutputNames node).Nodup →
+        CompOK W AE → (W.lim = false ∨ noFold node = true) → hyps3Node H miss pre node = true → (treeOutputNames node).Nodup →
         st.nextVid = st.nextEid + 1 → AE = L ++ evsNode node vid st.nextVid ++ Rest →
         (∀ p ∈ tblNode node vid st.nextVid, p ∈ tbl) → (∀ p ∈ ftblNode node st.nextVid, p ∈ ftbl) →
         HV W T path acc.verts → (∀ f ∈ acc.folds, f ∈ W.comp.folds) → (∀ e ∈ st'.tags, e ∈ T) →
@@ -131,7 +131,7 @@ theorem cert_fill3 :
             st.nextEid st'.nextEid) ∧
     (∀ path vid ty fields st acc st', fillFields S path vid ty fields st = .ok (acc, st') →
       ∀ (W : World) (miss : Bool) (L Rest AE : List Ev), EnvOK H W → TablesOK W tbl ftbl →
-        CompOK W AE → hyps3Fields H miss ty fields = true → (fieldsOutputNames fields).Nodup →
+        CompOK W AE → (W.lim = false ∨ noFoldFields fields = true) → hyps3Fields H miss ty fields = true → (fieldsOutputNames fields).Nodup →
         st.nextVid = st.nextEid + 1 → Ev.vtx vid ∈ L → (W.comp.vertex? vid).isSome →
         AE = L ++ evsFields fields st.nextVid ++ Rest →
         (∀ p ∈ tblFields fields st.nextVid, p ∈ tbl) → (∀ p ∈ ftblFields fields st.nextVid, p ∈ ftbl) →
@@ -141,7 +141,7 @@ theorem cert_fill3 :
   apply fill_induct S
     (P1 := fun path vid pre node st acc st' =>
       ∀ (W : World) (miss : Bool) (L Rest AE : List Ev), EnvOK H W → TablesOK W tbl ftbl →
-        CompOK W AE → hyps3Node H miss pre node = true → (treeOutputNames node).Nodup →
+        CompOK W AE → (W.lim = false ∨ noFold node = true) → hyps3Node H miss pre node = true → (treeOutputNames node).Nodup →
         st.nextVid = st.nextEid + 1 → AE = L ++ evsNode node vid st.nextVid ++ Rest →
         (∀ p ∈ tblNode node vid st.nextVid, p ∈ tbl) → (∀ p ∈ ftblNode node st.nextVid, p ∈ ftbl) →
         HV W T path acc.verts → (∀ f ∈ acc.folds, f ∈ W.comp.folds) → (∀ e ∈ st'.tags, e ∈ T) →
@@ -150,7 +150,7 @@ theorem cert_fill3 :
             st.nextEid st'.nextEid)
     (P2 := fun path vid ty fields st acc st' =>
       ∀ (W : World) (miss : Bool) (L Rest AE : List Ev), EnvOK H W → TablesOK W tbl ftbl →
-        CompOK W AE → hyps3Fields H miss ty fields = true → (fieldsOutputNames fields).Nodup →
+        CompOK W AE → (W.lim = false ∨ noFoldFields fields = true) → hyps3Fields H miss ty fields = true → (fieldsOutputNames fields).Nodup →
         st.nextVid = st.nextEid + 1 → Ev.vtx vid ∈ L → (W.comp.vertex? vid).isSome →
         AE = L ++ evsFields fields st.nextVid ++ Rest →
         (∀ p ∈ tblFields fields st.nextVid, p ∈ tbl) → (∀ p ∈ ftblFields fields st.nextVid, p ∈ ftbl) →
@@ -158,8 +158,8 @@ theorem cert_fill3 :
         ∃ ss, FieldsCert W miss fields vid L ss (evsFields fields st.nextVid) ∧
           RunFacts W vid fields acc ss (evsFields fields st.nextVid) st.nextEid st'.nextEid)
   · -- node
-    intro path vid pre ct fields st post acc1 st' hco hfill ih W miss L Rest AE he htab hc hh hon h0 hA
-      htbl hftbl hv hf hTs
+    intro path vid pre ct fields st post acc1 st' hco hfill ih W miss L Rest AE he htab hc hlim hh hon h0
+      hA htbl hftbl hv hf hTs
     simp only [hyps3Node, hS, hco, Bool.and_eq_true] at hh
     obtain ⟨⟨hord, hvar⟩, hfields⟩ := hh
     obtain ⟨fs, ev, stX, stY, hTX, hres, hV⟩ :=
@@ -184,7 +184,8 @@ theorem cert_fill3 :
       intro pf hpf f ⟨hl, ha⟩
       obtain ⟨ty, hty⟩ := nodeFilters_left S post fields pf hpf
       exact ⟨⟨ty, by rw [hl]; exact hty⟩, ha.mono fun t r hr => refOK_vertex hfresh hr⟩
-    obtain ⟨ss, hcert, hrf⟩ := ih W miss (L ++ [.vtx vid]) Rest AE he htab hc hfields
+    obtain ⟨ss, hcert, hrf⟩ := ih W miss (L ++ [.vtx vid]) Rest AE he htab hc
+      (by simpa [noFold] using hlim) hfields
       (by simpa [treeOutputNames] using hon) h0 (by simp)
       (by rw [hV]; rfl) (by rw [hA']; simp)
       (fun p hp => htbl p (by simp [tblNode, hp])) (fun p hp => hftbl p (by simpa [ftblNode] using hp))
@@ -200,15 +201,16 @@ theorem cert_fill3 :
     · exact ⟨by simpa using hrf.edges, by simpa using hrf.folds, hrf.evsEq, hrf.sortedE, hrf.bounds,
         fun f hf' => hrf.keysOK f (by simpa using hf'), by simpa [nodeFields] using hrf.outsP⟩
   · -- nil
-    intro path vid ty st W miss L Rest AE _ _ _ _ _ _ _ _ _ _ _ _ _ _
+    intro path vid ty st W miss L Rest AE _ _ _ _ _ _ _ _ _ _ _ _ _ _ _
     refine ⟨[], ?_, ?_⟩
     · unfold FieldsCert; exact ⟨rfl, rfl⟩
     · exact ⟨rfl, rfl, rfl, by simp, by simp, by simp, by simp [outPairs, evsFields, outTriples]⟩
   · -- prop
-    intro path vid ty n dirs rest st pty st1 acc1 st' _ h2 _ ih W miss L Rest AE he htab hc hh hon h0 hvL
-      hvS hA htbl hftbl hv hf hTs
+    intro path vid ty n dirs rest st pty st1 acc1 st' _ h2 _ ih W miss L Rest AE he htab hc hlim hh hon h0
+      hvL hvS hA htbl hftbl hv hf hTs
     obtain ⟨e1, e2, _, _⟩ := registerTags_inv h2
-    obtain ⟨ss, hcert, hrf⟩ := ih W miss L Rest AE he htab hc (by simpa [hyps3Fields] using hh)
+    obtain ⟨ss, hcert, hrf⟩ := ih W miss L Rest AE he htab hc (by simpa [noFoldFields] using hlim)
+      (by simpa [hyps3Fields] using hh)
       (by
         have := outputDirs_names vid n pty dirs rest
         rw [← this] at hon
@@ -228,8 +230,12 @@ theorem cert_fill3 :
       exact List.Perm.append_left _ hrf.outsP
   · -- fold
     intro path vid ty n params fds child rest st ed ps accIn st2 comp evs st3 post evPost st4 st5 accR
-      st' h1 h2 h3 h4 h5 h6 h7 ihC ihR W miss L Rest AE he htab hc hh hon h0 hvL hvS hA htbl hftbl hv hf
-      hTs
+      st' h1 h2 h3 h4 h5 h6 h7 ihC ihR W miss L Rest AE he htab hc hlim hh hon h0 hvL hvS hA htbl hftbl hv
+      hf hTs
+    have hWlim : W.lim = false := by
+      rcases hlim with h | h
+      · exact h
+      · simp [noFoldFields] at h
     simp only [hyps3Fields, hS, h1, h2, Bool.and_eq_true] at hh
     obtain ⟨⟨⟨hpar, _⟩, ⟨hguard, hvars⟩, hchild⟩, hrest⟩ := hh
     have b1 : st.bump.nextVid = st.nextVid + 1 := rfl
@@ -318,7 +324,8 @@ theorem cert_fill3 :
       rw [hcv]
       exact find?_vertex_of_mem (V := ⟨r'.vid, r'.typeName, r'.coercedFrom, fs'⟩) hndv hmem
     have htabIn : TablesOK (W.inner F) tbl ftbl := ⟨htab.tg, htab.ft⟩
-    obtain ⟨ssIn, hcertIn, hrfIn⟩ := ihC (W.inner F) false [] [] _ ⟨he.d, he.a, he.e⟩ htabIn hcIn hchild
+    obtain ⟨ssIn, hcertIn, hrfIn⟩ := ihC (W.inner F) false [] [] _ ⟨he.d, he.a, he.e⟩ htabIn hcIn
+      (Or.inl hWlim) hchild
       (List.nodup_append.1 (List.nodup_append.1 hon).1).2.1 (by rw [b1, b2, h0]) (by rw [b1]; simp)
       (fun p hp => htbl p (by
         simp only [tblFields, List.mem_append]; exact Or.inl (by simpa [b1] using hp)))
@@ -454,7 +461,8 @@ theorem cert_fill3 :
             rw [hft]; exact List.mem_cons_of_mem _ (List.mem_append_left _ hp)))]
     have facts : FoldFacts W miss n params fds child vid L F ssIn
         (evsNode child st.nextVid (st.nextVid + 1)) :=
-      { from_ := by rw [hF]; rfl
+      { lim := hWlim
+        from_ := by rw [hF]; rfl
         fromV := hvS
         inComp := by rw [List.any_eq_true]; exact ⟨F, hFmem, by simp⟩
         name := by rw [hF]; rfl
@@ -479,7 +487,8 @@ theorem cert_fill3 :
         toVid := by rw [hFto, hFeid]; exact h0
         ndIn := nodup_of_sorted hsortedIn }
     -- the remaining selections
-    obtain ⟨ssR, hcertR, hrfR⟩ := ihR W miss (L ++ [.fold st.nextEid]) Rest AE he htab hc hrest
+    obtain ⟨ssR, hcertR, hrfR⟩ := ihR W miss (L ++ [.fold st.nextEid]) Rest AE he htab hc (Or.inl hWlim)
+      hrest
       (List.nodup_append.1 hon).2.1 h05 (List.mem_append_left _ hvL) hvS
       (by rw [hA, hn5]; simp)
       (fun p hp => htbl p (by
@@ -522,9 +531,17 @@ theorem cert_fill3 :
         exact hrfR.outsP
   · -- plain / optional / recursive edge
     intro path vid ty n params kind child rest st ed ps r accC st2 accR st' hk h1 h2 h3 h4 h5 ihC ihR
-      W miss L Rest AE he htab hc hh hon h0 hvL hvS hA htbl hftbl hv hf hTs
+      W miss L Rest AE he htab hc hlim hh hon h0 hvL hvS hA htbl hftbl hv hf hTs
     simp only [hyps3Fields, hS, h1, h2, Bool.and_eq_true] at hh
     obtain ⟨⟨⟨hpar, hrecok⟩, hchild0⟩, hrest⟩ := hh
+    have hlimC : W.lim = false ∨ noFold child = true := by
+      rcases hlim with h | h
+      · exact Or.inl h
+      · simp only [noFoldFields, Bool.and_eq_true] at h; exact Or.inr h.1.2
+    have hlimR : W.lim = false ∨ noFoldFields rest = true := by
+      rcases hlim with h | h
+      · exact Or.inl h
+      · simp only [noFoldFields, Bool.and_eq_true] at h; exact Or.inr h.2
     have hchild : hyps3Node H (childMiss miss kind) ed.target child = true := by
       cases kind with
       | fold fds => exact absurd rfl (hk fds)
@@ -563,7 +580,7 @@ theorem cert_fill3 :
     rw [hfon] at hon
     rw [hev] at hA
     obtain ⟨ssC, hcertC, hrfC⟩ := ihC W (childMiss miss kind) L
-      (evsFields rest (st.nextVid + 1 + size child) ++ Rest) AE he htab hc hchild
+      (evsFields rest (st.nextVid + 1 + size child) ++ Rest) AE he htab hc hlimC hchild
       (List.nodup_append.1 hon).1 (by rw [b1, b2, h0]) (by rw [hA, b1]; simp)
       (fun p hp => htbl p (by simp only [tblFields, List.mem_append]; exact Or.inl (by simpa [b1] using hp)))
       (fun p hp => hftbl p (by rw [hft]; exact List.mem_append_left _ (by simpa [b1] using hp)))
@@ -572,7 +589,7 @@ theorem cert_fill3 :
     rw [b1, b2] at hrfC
     rw [b1] at hcertC
     obtain ⟨ssR, hcertR, hrfR⟩ := ihR W miss (L ++ evsNode child st.nextVid (st.nextVid + 1)) Rest AE
-      he htab hc hrest (List.nodup_append.1 hon).2.1 kC.sync (List.mem_append_left _ hvL) hvS
+      he htab hc hlimR hrest (List.nodup_append.1 hon).2.1 kC.sync (List.mem_append_left _ hvL) hvS
       (by rw [hA, hs]; simp)
       (fun p hp => htbl p (by
         simp only [tblFields, List.mem_append]; exact Or.inr (by simpa [hs, Nat.add_assoc] using hp)))
